@@ -1,5 +1,897 @@
-"""Spline build-side analysis (placeholder until the solver model lands)."""
+"""Spline build-side analysis: extraction of the tridiagonal system from solve_for_k for every boundary scenario and
+the form-free / scale-free obligations on its rows (shared by C02, C03, C16, C10, C15, C08)."""
+from ..absint import *
+from ..smodel import *
+from ..poly import Rat, Poly, reindex, diff
+from ..thir import Lib
+
+SFK = 'interp1d::strategies::cubic_spline::CubicSpline::solve_for_k'
+THOMAS = 'interp1d::strategies::cubic_spline::CubicSpline::thomas'
+CALC = 'interp1d::strategies::cubic_spline::CubicSpline::calc_coefficients'
+IB = 'interp1d::strategies::cubic_spline::InternalBoundary'
+SB = 'interp1d::strategies::cubic_spline::SingleBoundary'
+BC = 'interp1d::strategies::cubic_spline::BoundaryCondition'
+RB = 'interp1d::strategies::cubic_spline::RowBoundary'
+A = Rat.atom
+N = A('n')
+
+
+def X(j):
+    return ax_atom('x', j if isinstance(j, Rat) else Rat.const(j))
+
+
+def Y(j):
+    return data_atom('y', [j if isinstance(j, Rat) else Rat.const(j)])
+
+
+def single(kind, side):
+    if kind in ('FirstDeriv', 'SecondDeriv'):
+        return Enum(SB, kind, {'0': Num(A('v_' + side))})
+    return Enum(SB, kind)
+
+
+def mixed(left, right):
+    return Enum(IB, 'Mixed', {'left': single(left, 'l'), 'right': single(right, 'r')})
+
+
+def run_solve(lib, boundary, n=None, **scn):
+    b = lib.body(SFK)
+    scn = dict(scn)
+    scn['n'] = n
+    m = SModel(scn)
+    it = Interp(lib, m)
+    x, data = cubic_objects()
+    k = m.new_arr2(m.n, 'k')
+    m.k = k
+    try:
+        out = deref_all(it.call_def(b['def'], [k, Ref(ValPlace(x)), Ref(ValPlace(data)), boundary]))
+        return m, out, None
+    except (Unsupported, Diverge) as ex:
+        return m, None, ex
+
+
+class System:
+    """the tridiagonal system handed to the solver: row i is  low[i] k[i-1] + mid[i] k[i] + up[i] k[i+1] = rhs[i]"""
+
+    def __init__(self, call):
+        self.c = call
+
+    def arr(self, nm):
+        return self.c[nm]
+
+    def at(self, nm, idx):
+        """entry at a specific index (Rat); falls back to the generic interior entry re-indexed"""
+        a = self.c[nm]
+        t = a.d['t']
+        idx = idx if isinstance(idx, Rat) else Rat.const(idx)
+        real = idx + a.d['lo']
+        k = idx_name(real)
+        if k in t.store:
+            return t.store[k][1]
+        for g in reversed(t.generic):
+            if isinstance(g['value'], Rat):
+                return reindex(g['value'], {g['var']: real})
+        return Rat.const(0)
+
+    def specific(self, nm, idx):
+        a = self.c[nm]
+        t = a.d['t']
+        idx = idx if isinstance(idx, Rat) else Rat.const(idx)
+        k = idx_name(idx + a.d['lo'])
+        return t.store[k][1] if k in t.store else None
+
+    def generic(self, nm, var='i'):
+        a = self.c[nm]
+        t = a.d['t']
+        for g in reversed(t.generic):
+            if isinstance(g['value'], Rat):
+                return reindex(g['value'], {g['var']: A(var)}), g['lo'], g['hi']
+        return None, None, None
+
+    def length(self, nm):
+        a = self.c[nm]
+        return a.d['hi'] - a.d['lo']
+
+
+# --------------------------------------------------------------------------- families
+C0, C1, C2, C3 = A('c0'), A('c1'), A('c2'), A('c3')
+
+
+def cubic(t):
+    return C0 + C1 * t + C2 * t * t + C3 * t * t * t
+
+
+def dcubic(t):
+    return C1 + 2 * C2 * t + 3 * C3 * t * t
+
+
+def d2cubic(t):
+    return 2 * C2 + 6 * C3 * t
+
+
+def subs_all(r, mapping):
+    return r.subs({str(k) if not isinstance(k, str) else k: v for k, v in mapping.items()})
+
+
+def stencil_residual(L, M, U, R, nodes, knames):
+    """F = L k_a + M k_b + U k_c - R  as a Rat in atoms k_a.. (given names) and y / x atoms"""
+    ka, kb, kc = [A(n_) for n_ in knames]
+    return L * ka + M * kb + U * kc - R
+
+
+def check_stencil(chk, rule, what, where, key, L, M, U, R, idx):
+    """interior (C2) stencil at node idx with neighbours idx-1, idx+1:
+    vanishes on cubics and on the truncated power (x - x_idx)_+^3; is not the zero functional."""
+    im, i0, ip = idx - 1, idx, idx + 1
+    xs = {str(X(j)): X(j) for j in (im, i0, ip)}
+    # cubic family
+    sub = {}
+    for j in (im, i0, ip):
+        sub[str(Y(j))] = cubic(X(j))
+    F = (L * A('k_m') + M * A('k_0') + U * A('k_p') - R)
+    Fc = F.subs(sub).subs({'k_m': dcubic(X(im)), 'k_0': dcubic(X(i0)), 'k_p': dcubic(X(ip))})
+    ok1 = chk.ob(rule, "%s: the row functional vanishes for y = p(x), k = p'(x), p any cubic" % what, Fc.is_zero(), where, key + '-cubics',
+                 str(Fc)[:300])
+    h = X(ip) - X(i0)
+    Ft = F.subs({str(Y(im)): Rat.const(0), str(Y(i0)): Rat.const(0), str(Y(ip)): h * h * h}).subs(
+        {'k_m': Rat.const(0), 'k_0': Rat.const(0), 'k_p': 3 * h * h})
+    ok2 = chk.ob(rule, "%s: the row functional vanishes on the truncated power (x - x_i)_+^3 (a C2 spline that is not a cubic)" % what,
+                 Ft.is_zero(), where, key + '-truncated-power', str(Ft)[:300])
+    ok3 = chk.ob(rule, "%s: the row is not the zero functional (its diagonal entry is a non-zero polynomial)" % what, not M.is_zero(), where, key + '-nonzero')
+    return ok1 and ok2 and ok3
+
+
+def left_row_check(chk, rule, kind, sysm, where, nval):
+    """row 0:  mid[0] k0 + up[0] k1 = rhs[0]"""
+    M0, U0, R0 = sysm.at('mid', 0), sysm.at('up', 0), sysm.at('rhs', 0)
+    F = M0 * A('k0') + U0 * A('k1') - R0
+    key = 'left-%s-n%s' % (kind, nval)
+    what = "left %s row (n %s)" % (kind, nval)
+    return end_row_check(chk, rule, kind, F, M0, what, where, key, nodes=(Rat.const(0), Rat.const(1), Rat.const(2)), v=A('v_l'), side='left')
+
+
+def right_row_check(chk, rule, kind, sysm, where, nval, n):
+    L, M, R = sysm.at('low', n - 1), sysm.at('mid', n - 1), sysm.at('rhs', n - 1)
+    # mirror: k0 <-> k[n-1], k1 <-> k[n-2]
+    F = M * A('k0') + L * A('k1') - R
+    key = 'right-%s-n%s' % (kind, nval)
+    what = "right %s row (n %s)" % (kind, nval)
+    return end_row_check(chk, rule, kind, F, M, what, where, key, nodes=(n - 1, n - 2, n - 3), v=A('v_r'), side='right')
+
+
+def end_row_check(chk, rule, kind, F, diag, what, where, key, nodes, v, side):
+    """F(k0, k1; y at nodes[0..2]; v): k0 belongs to the end node nodes[0], k1 to its neighbour nodes[1]."""
+    e0, e1, e2 = nodes
+    ok = True
+    vname = str(v)
+    if kind in ('NotAKnot',):
+        sub = {str(Y(j)): cubic(X(j)) for j in (e0, e1, e2)}
+        Fc = F.subs(sub).subs({'k0': dcubic(X(e0)), 'k1': dcubic(X(e1))})
+        ok &= chk.ob(rule, "%s vanishes whenever the two end intervals carry ONE cubic (y = p(x), k = p'(x))" % what, Fc.is_zero(), where,
+                     key + '-cubics', str(Fc)[:400])
+        # witness outside the admissible family: truncated power with its knot at the first interior node
+        h = X(e2) - X(e1)
+        Ft = F.subs({str(Y(e0)): Rat.const(0), str(Y(e1)): Rat.const(0), str(Y(e2)): h * h * h}).subs({'k0': Rat.const(0), 'k1': Rat.const(0)})
+        ok &= chk.ob(rule, "%s does not vanish on a spline with a third-derivative jump at the first interior node" % what, not Ft.is_zero(),
+                     where, key + '-witness')
+        ok &= chk.ob(rule, "%s does not involve a boundary value" % what, vname not in F.atoms(), where, key + '-no-v')
+    elif kind in ('FirstDeriv', 'Clamped'):
+        val = v if kind == 'FirstDeriv' else Rat.const(0)
+        Fa = F.subs({'k0': val})
+        ok &= chk.ob(rule, "%s is satisfied exactly by k_end = %s, whatever the data and the neighbouring slope" % (what, 'v' if kind == 'FirstDeriv' else '0'),
+                     Fa.is_zero(), where, key + '-admissible', str(Fa)[:300])
+        Fw = F.subs({'k0': val + 1})
+        ok &= chk.ob(rule, "%s rejects k_end = %s + 1 (non-zero functional)" % (what, 'v' if kind == 'FirstDeriv' else '0'), not Fw.is_zero(), where, key + '-witness')
+    elif kind in ('SecondDeriv', 'Natural'):
+        sub = {str(Y(j)): cubic(X(j)) for j in (e0, e1, e2)}
+        Fc = F.subs(sub).subs({'k0': dcubic(X(e0)), 'k1': dcubic(X(e1))})
+        if kind == 'SecondDeriv':
+            Fa = Fc.subs({vname: d2cubic(X(e0))})
+            ok &= chk.ob(rule, "%s vanishes for the cubic p on the end interval when v = p''(x_end)" % what, Fa.is_zero(), where, key + '-admissible', str(Fa)[:300])
+            Fw = Fc.subs({vname: d2cubic(X(e0)) + 1})
+            ok &= chk.ob(rule, "%s rejects v = p''(x_end) + 1" % what, not Fw.is_zero(), where, key + '-witness')
+        else:
+            # cubics with p''(x_end) = 0:  c2 = -3 c3 x_end
+            Fa = Fc.subs({'c2': -3 * C3 * X(e0)})
+            ok &= chk.ob(rule, "%s vanishes for every cubic with p''(x_end) = 0" % what, Fa.is_zero(), where, key + '-admissible', str(Fa)[:300])
+            ok &= chk.ob(rule, "%s rejects cubics with p''(x_end) != 0" % what, not Fc.is_zero(), where, key + '-witness')
+        ok &= chk.ob(rule, "%s does not depend on the second interval's data (a one-interval condition)" % what, str(Y(e2)) not in F.atoms(), where, key + '-local')
+    else:
+        ok &= chk.ob(rule, "unknown boundary kind %s" % kind, False, where, key)
+    ok &= chk.ob(rule, "%s has a non-zero diagonal entry" % what, not diag.is_zero(), where, key + '-diag')
+    return ok
+
+
+KINDS = ('NotAKnot', 'Natural', 'Clamped', 'FirstDeriv', 'SecondDeriv')
+
+
+def general_arm(chk, lib, rule_interior, rule_boundary, n=None, only_interior=False):
+    """all 25 (left, right) Mixed combinations on the general arm; returns number of systems analysed"""
+    nval = 'symbolic (>= 4)' if n is None else str(n)
+    nn = N if n is None else Rat.const(n)
+    count = 0
+    done_interior = False
+    for lk in KINDS:
+        for rk in KINDS:
+            if n == 3 and lk == 'NotAKnot' and rk == 'NotAKnot':
+                continue
+            m, out, ex = run_solve(lib, mixed(lk, rk), n)
+            key = 'mixed-%s-%s-n%s' % (lk, rk, nval)
+            where = lib.body(SFK)['span']
+            if ex is not None:
+                chk.ob(rule_boundary, "solve_for_k with Mixed{%s, %s}, n %s is within the reviewed lane-wise surface: %s" % (lk, rk, nval, ex), False,
+                       ex.where, key + '-unrecognised')
+                continue
+            if not chk.ob(rule_boundary, "Mixed{%s, %s}, n %s: returns Ok after exactly one tridiagonal solve" % (lk, rk, nval),
+                          isinstance(out, Enum) and out.variant == 'Ok' and len(m.thomas_calls) == 1, where, key + '-one-solve'):
+                continue
+            count += 1
+            sysm = System(m.thomas_calls[0])
+            chk.ob(rule_boundary, "Mixed{%s, %s}, n %s: the solver writes into the caller's slope array k" % (lk, rk, nval),
+                   m.thomas_calls[0]['k'] is m.k, where, key + '-k')
+            if not done_interior and not only_interior:
+                done_interior = True
+                interior_checks(chk, rule_interior, m, sysm, where, nval, nn)
+            if only_interior:
+                interior_checks(chk, rule_interior, m, sysm, where, nval + ' ' + lk + '/' + rk, nn)
+                continue
+            left_row_check(chk, rule_boundary, lk, sysm, where, nval)
+            right_row_check(chk, rule_boundary, rk, sysm, where, nval, nn)
+    return count
+
+
+def interior_checks(chk, rule, m, sysm, where, nval, nn):
+    L, lo, hi = sysm.generic('low')
+    M, lo2, hi2 = sysm.generic('mid')
+    U, lo3, hi3 = sysm.generic('up')
+    R, lo4, hi4 = sysm.generic('rhs')
+    ok = chk.ob(rule, "interior rows: all four arrays have a generic interior entry (n %s)" % nval, all(z is not None for z in (L, M, U, R)), where, 'interior-generic-n%s' % nval)
+    if not ok:
+        return
+    chk.ob(rule, "interior rows cover exactly the nodes 1 .. n-2 in all four arrays (slice 1..-1 / windows(3) / loop 1..len-1 aligned)",
+           all(a == Rat.const(1) for a in (lo, lo2, lo3, lo4)) and all(b == nn - 2 for b in (hi, hi2, hi3, hi4)), where, 'interior-range-n%s' % nval,
+           [str(z) for z in (lo, hi, lo2, hi2, lo3, hi3, lo4, hi4)])
+    wa = getattr(m, 'window_alignment', None)
+    chk.ob(rule, "the zipped slices and windows(3) have the same length (%s)" % ((wa and [str(wa['n_slice']), str(wa['n_windows'])]),),
+           wa is not None and wa['n_slice'] == wa['n_windows'] and wa['window'] == 3, where, 'interior-zip-n%s' % nval)
+    check_stencil(chk, rule, "interior row i (n %s)" % nval, where, 'interior-n%s' % nval, L, M, U, R, A('i'))
+    chk.sample({"interior row": "low=%s mid=%s up=%s" % (L, M, U)})
+
+
+# --------------------------------------------------------------------------- Thomas algorithm (inductive steps)
+class TModel(SModel):
+    """thomas(k, up, mid, low, rhs) on fully symbolic inputs; each loop is ONE inductive step.
+    Loop-carried row temporaries (`x.into_owned()` later zipped through `view_mut()`) are havocked at the loop head."""
+
+    def __init__(self):
+        super().__init__({'n': None, 'summarise_thomas': False})
+        self.loop_reports = []
+
+    def call(self, name, cal, args, e, frame):
+        last = name.split('::')[-1]
+        a0 = deref_all(args[0]) if args else None
+        if name == 'std::ops::SubAssign::sub_assign':
+            ref = args[0]
+            if isinstance(ref, Ref):
+                cur = deref_all(ref.place.get())
+                v = deref_all(args[1])
+                ref.place.set(num_binop('-', cur, v, e))
+                return Unit()
+        if isinstance(a0, Obj) and a0.kind == 'lanes' and last in ('into_owned', 'to_owned'):
+            return Obj('lanesvar', cell={'r': a0.d['r']})
+        if isinstance(a0, Obj) and a0.kind == 'lanesvar' and last in ('view_mut', 'view'):
+            return a0
+        return super().call(name, cal, args, e, frame)
+
+    def lane_arg(self, part, e):
+        if isinstance(part, Obj) and part.kind == 'lanesvar':
+            cell = part.d['cell']
+
+            def setter(v):
+                cell['r'] = deref_all(v).r
+            return Ref(FnPlace(lambda: Num(cell['r']), setter, 'carried'), mut=True)
+        return super().lane_arg(part, e)
+
+    def for_loop(self, iterable, pat, body, frame, e):
+        carried = {}
+        f = frame
+        while f is not None:
+            for k, v in f.vars.items():
+                if isinstance(v, Obj) and v.kind == 'lanesvar' and k not in carried:
+                    carried[k] = v
+            f = f.parent
+        pre = {k: v.d['cell']['r'] for k, v in carried.items()}
+        for k, v in carried.items():
+            v.d['cell']['r'] = Rat.atom('carry:' + k.split('#')[0])
+        gen_before = {id(t): len(t.generic) for t in self.arrays}
+        r = super().for_loop(iterable, pat, body, frame, e)
+        lp = self.loops[-1]
+        post = {k: v.d['cell']['r'] for k, v in carried.items()}
+        changed = {k for k in carried if str(post[k]) != 'carry:' + k.split('#')[0]}
+        rep = dict(lp)
+        rep['carried'] = {k.split('#')[0]: (pre[k], post[k]) for k in changed}
+        rep['generic'] = {}
+        for t in self.arrays:
+            if len(t.generic) > gen_before.get(id(t), 0):
+                g = t.generic[-1]
+                rep['generic'][t.sym or t.name] = (g.get('idx'), g['value'])
+                if t.sym is not None:
+                    t.sym = t.sym + "'"      # contents after this loop
+                    t.generic = []
+        self.loop_reports.append(rep)
+        return r
+
+
+def check_thomas(chk, lib, rule):
+    b = lib.body(THOMAS)
+    if not chk.require(b is not None, rule, 'anchor-thomas', THOMAS, "the tridiagonal solver called by solve_for_k exists"):
+        return
+    where = b['span']
+    m = TModel()
+    it = Interp(lib, m)
+    n = m.n
+    k = m.new_arr2(n, 'k')
+
+    def sym1(name):
+        a = m.new_arr1(n, name)
+        a.d['t'].sym = name
+        return a
+    up, mid, low = sym1('up'), sym1('mid'), sym1('low')
+    rhs = m.new_arr2(n, 'rhs', sym='rhs')
+    try:
+        it.call_def(b['def'], [k, up, mid, low, rhs])
+    except (Unsupported, Diverge) as ex:
+        chk.ob(rule, "the solver is within the reviewed lane-wise surface: %s" % ex, False, ex.where, 'thomas-unrecognised')
+        return
+    reps = m.loop_reports
+    if not chk.ob(rule, "the solver consists of a forward sweep and a backward sweep (found %d loops)" % len(reps), len(reps) == 2, where, 'thomas-two-loops'):
+        return
+    fw, bw = reps
+    j = A(fw['var'])
+    one = Rat.const(1)
+    # ---- forward sweep
+    chk.ob(rule, "forward sweep runs over rows 1 .. len-1 in increasing order (got %s .. %s%s)" % (fw['lo'], fw['hi'], ' reversed' if fw['rev'] else ''),
+           fw['lo'] == one and fw['hi'] == n - 1 and not fw['rev'], fw['where'], 'fw-range')
+    g = fw['generic']
+    ok = chk.ob(rule, "forward sweep updates exactly the diagonal and the right-hand side (updated: %s)" % sorted(g), sorted(g) == ['mid', 'rhs'], fw['where'], 'fw-updates')
+    if ok:
+        (imid, vmid), (irhs, vrhs) = g['mid'], g['rhs']
+        chk.ob(rule, "forward sweep writes row j of both arrays (j the loop index)", str(imid) == fw['var'] and str(irhs) == fw['var'], fw['where'], 'fw-index')
+        midj, lowj, midp, upp, rhsj = A('mid[%s]' % j), A('low[%s]' % j), A('mid[%s]' % (j - 1)), A('up[%s]' % (j - 1)), A('rhs[%s]' % j)
+        w = lowj / midp
+        chk.ob(rule, "forward step: new diagonal = mid[j] - (low[j]/mid'[j-1]) * up[j-1]  (row j minus w * row j-1)", vmid == midj - w * upp, fw['where'],
+               'fw-diag', str(vmid))
+        car = fw['carried']
+        okc = chk.ob(rule, "forward sweep carries exactly one row temporary (found %s)" % sorted(car), len(car) == 1, fw['where'], 'fw-carry-one')
+        if okc:
+            nm = list(car)[0]
+            pre, post = car[nm]
+            c = A('carry:' + nm)
+            chk.ob(rule, "forward step: new rhs = rhs[j] - (low[j]/mid'[j-1]) * (updated rhs of row j-1, carried in `%s`)" % nm,
+                   vrhs == rhsj - w * c, fw['where'], 'fw-rhs', str(vrhs))
+            chk.ob(rule, "the carried temporary starts as rhs[0] = the row before the first eliminated row", pre == A('rhs[0]'), fw['where'], 'fw-carry-init', str(pre))
+            chk.ob(rule, "the carried temporary leaves the step holding the updated rhs of row j", post == vrhs, fw['where'], 'fw-carry-step', str(post))
+        # the eliminated sub-diagonal entry: low[j] - w_eff * mid'[j-1] == 0 with w_eff recovered from the diagonal update
+        weff = (midj - vmid) / upp
+        chk.ob(rule, "the multiplier used eliminates the sub-diagonal entry: low[j] - w * mid'[j-1] == 0", (lowj - weff * midp).is_zero(), fw['where'], 'fw-eliminates')
+    # ---- last row
+    t = k.d['t']
+    last = t.store.get(idx_name(n - 1))
+    chk.ob(rule, "last unknown: k[len-1] = rhs'[len-1] / mid'[len-1] (values after the forward sweep)",
+           last is not None and last[1] == A("rhs'[%s]" % (n - 1)) / A("mid'[%s]" % (n - 1)), where, 'last-row', str(last and last[1]))
+    # ---- backward sweep
+    jb = A(bw['var'])
+    chk.ob(rule, "backward sweep runs over rows len-2 .. 0 in decreasing order (got %s .. %s%s)" % (bw['lo'], bw['hi'], ' reversed' if bw['rev'] else ''),
+           bw['lo'] == Rat.const(0) and bw['hi'] == n - 2 and bw['rev'], bw['where'], 'bw-range')
+    gb = bw['generic']
+    okb = chk.ob(rule, "backward sweep writes exactly the unknowns k (updated: %s)" % sorted(gb), sorted(gb) == ['k'], bw['where'], 'bw-updates')
+    if okb:
+        (ik, vk) = list(gb.values())[0]
+        chk.ob(rule, "backward sweep writes row j of k", str(ik) == bw['var'], bw['where'], 'bw-index')
+        car = bw['carried']
+        if chk.ob(rule, "backward sweep carries exactly one row temporary (found %s)" % sorted(car), len(car) == 1, bw['where'], 'bw-carry-one'):
+            nm = list(car)[0]
+            pre, post = car[nm]
+            c = A('carry:' + nm)
+            midj, upj, rhsj = A("mid'[%s]" % jb), A("up[%s]" % jb), A("rhs'[%s]" % jb)
+            chk.ob(rule, "back-substitution satisfies row j of the eliminated system: mid'[j] k[j] + up[j] k[j+1] - rhs'[j] == 0 (k[j+1] carried in `%s`)" % nm,
+                   (midj * vk + upj * c - rhsj).is_zero(), bw['where'], 'bw-row', str(vk))
+            chk.ob(rule, "the carried temporary starts as k[len-1]", last is not None and pre == last[1], bw['where'], 'bw-carry-init', str(pre))
+            chk.ob(rule, "the carried temporary leaves the step holding k[j]", post == vk, bw['where'], 'bw-carry-step')
+    chk.sample({"thomas forward step": "mid'[j] = mid[j] - (low[j]/mid'[j-1]) up[j-1];  rhs'[j] = rhs[j] - (low[j]/mid'[j-1]) rhs'[j-1]"})
+
+
+# --------------------------------------------------------------------------- 3-point NotAKnot arm
+def check_three_point(chk, lib, rule):
+    m, out, ex = run_solve(lib, mixed('NotAKnot', 'NotAKnot'), 3)
+    where = lib.body(SFK)['span']
+    if ex is not None:
+        chk.ob(rule, "3-point NotAKnot arm is within the reviewed surface: %s" % ex, False, ex.where, 'three-point-unrecognised')
+        return
+    if not chk.ob(rule, "3-point NotAKnot: exactly one tridiagonal solve", len(m.thomas_calls) == 1, where, 'three-point-one-solve'):
+        return
+    s = System(m.thomas_calls[0])
+    k = [A('k0'), A('k1'), A('k2')]
+    rows = [s.at('mid', 0) * k[0] + s.at('up', 0) * k[1] - s.at('rhs', 0),
+            s.at('low', 1) * k[0] + s.at('mid', 1) * k[1] + s.at('up', 1) * k[2] - s.at('rhs', 1),
+            s.at('low', 2) * k[1] + s.at('mid', 2) * k[2] - s.at('rhs', 2)]
+    para = {'c3': Rat.const(0)}
+    sub = {str(Y(j)): cubic(X(j)).subs(para) for j in range(3)}
+    ks = {'k%d' % j: dcubic(X(j)).subs(para) for j in range(3)}
+    for i, F in enumerate(rows):
+        Fp = F.subs(sub).subs(ks)
+        chk.ob(rule, "3-point NotAKnot: row %d vanishes for the parabola through the three points with k = p'" % i, Fp.is_zero(), where,
+               'three-point-row%d' % i, str(Fp)[:300])
+    # uniqueness: determinant of the 3x3 system as a polynomial in the interval lengths
+    m0, u0 = s.at('mid', 0), s.at('up', 0)
+    l1, m1, u1 = s.at('low', 1), s.at('mid', 1), s.at('up', 1)
+    l2, m2 = s.at('low', 2), s.at('mid', 2)
+    det = m0 * (m1 * m2 - u1 * l2) - u0 * (l1 * m2)
+    h0, h1 = A('h0'), A('h1')
+    d = det.subs({str(X(1)): X(0) + h0, str(X(2)): X(0) + h0 + h1})
+    okp = d.is_poly() and not d.is_zero()
+    if okp:
+        p = d.as_poly()
+        okp = p.atoms() <= {'h0', 'h1'} and (all(c > 0 for c in p.t.values()) or all(c < 0 for c in p.t.values()))
+    chk.ob(rule, "3-point NotAKnot: the determinant is a polynomial in the interval lengths with coefficients of one sign (%s): the "
+                 "parabola's slopes are the unique solution" % d, okp, where, 'three-point-det', str(d))
+
+
+# --------------------------------------------------------------------------- periodic arms
+def cyclic_stencil(sysm, nodes_x, nodes_y):
+    """the (verified) interior stencil re-instantiated at three arbitrary nodes"""
+    L, _, _ = sysm.generic('low', 'i')
+    M, _, _ = sysm.generic('mid', 'i')
+    U, _, _ = sysm.generic('up', 'i')
+    R, _, _ = sysm.generic('rhs', 'i')
+    i = A('i')
+    sub = {}
+    for off, xv, yv in zip((-1, 0, 1), nodes_x, nodes_y):
+        sub[str(X(i + off))] = xv
+        sub[str(Y(i + off))] = yv
+    return [z.subs(sub) for z in (L, M, U, R)]
+
+
+def proportional(rows_a, rows_b):
+    """two coefficient tuples describe the same equation up to a common non-zero factor"""
+    pa = [a for a in rows_a]
+    pb = [b for b in rows_b]
+    for i in range(len(pa)):
+        for j in range(i + 1, len(pa)):
+            if not (pa[i] * pb[j] - pa[j] * pb[i]).is_zero():
+                return False
+    return any(not a.is_zero() for a in pa) and all(a.is_zero() == b.is_zero() for a, b in zip(pa, pb))
+
+
+def check_periodic(chk, lib, rule, rule_ends):
+    where = lib.body(SFK)['span']
+    per = Enum(IB, 'Periodic')
+    # ---- end rows must be equal, checked before anything is solved (both arms)
+    for n in (3, None):
+        nv = '3' if n == 3 else 'symbolic (>= 4)'
+        nn = Rat.const(3) if n == 3 else N
+        for ndim1 in (True, False):
+            m, out, ex = run_solve(lib, per, n, ends_equal=False, ndim1=ndim1)
+            key = 'periodic-ends-n%s-ndim1=%s' % (nv, ndim1)
+            if ex is not None:
+                chk.ob(rule_ends, "periodic arm (n %s): %s" % (nv, ex), False, ex.where, key + '-unrecognised')
+                continue
+            err = None
+            if isinstance(out, Enum) and out.variant == 'Err':
+                er = deref_all(out.fields['0'])
+                err = er.variant if isinstance(er, Enum) else None
+            cmpd = [c for c in m.cmp_events if c[0] == 'lanes']
+            chk.ob(rule_ends, "Periodic, n %s: unequal first/last data rows -> Err(ValueError) before any solve and before k is written (got %s, %d solves)" %
+                   (nv, err, len(m.thomas_calls)), err == 'ValueError' and not m.thomas_calls and not m.k.d['t'].writes, where, key)
+            chk.ob(rule_ends, "Periodic, n %s: the rows compared are the first and the last data row (%s)" % (nv, cmpd[:1]),
+                   len(cmpd) >= 1 and {cmpd[0][1], cmpd[0][2]} == {str(Y(0)), str(Y(nn - 1))}, where, key + '-which-rows')
+    # ---- 3-point periodic arm
+    m, out, ex = run_solve(lib, per, 3, ends_equal=True)
+    if ex is not None:
+        chk.ob(rule, "3-point periodic arm: %s" % ex, False, ex.where, 'periodic3-unrecognised')
+    else:
+        t = m.k.d['t']
+        g = [g for g in t.generic if isinstance(g['value'], Rat)]
+        ok = chk.ob(rule, "3-point Periodic: all three slopes are assigned one lane-wise value, no tridiagonal solve", len(g) == 1 and not m.thomas_calls and
+                    g[0]['lo'] == Rat.const(0) and g[0]['hi'] == Rat.const(2), where, 'periodic3-shape')
+        if ok:
+            kap = g[0]['value'].subs({str(Y(2)): Y(0)})
+            # node 1: ordinary stencil; node 0: cyclic stencil with left neighbour = node 1 shifted by one period
+            ref, _, _ = run_solve(lib, mixed('Natural', 'Natural'), None)
+            sg = System(ref.thomas_calls[0])
+            P = X(2) - X(0)
+            for nm, xs, ys in (('node 1', (X(0), X(1), X(2)), (Y(0), Y(1), Y(0))),
+                               ('node 0 (cyclic)', (X(1) - P, X(0), X(1)), (Y(1), Y(0), Y(1)))):
+                L, M, U, R = cyclic_stencil(sg, xs, ys)
+                F = (L + M + U) * kap - R
+                chk.ob(rule, "3-point Periodic: k0 = k1 = k2 = value satisfies the C2 stencil at %s" % nm, F.is_zero(), where, 'periodic3-' + nm.split()[1], str(F)[:300])
+    # ---- general periodic arm
+    m, out, ex = run_solve(lib, per, None, ends_equal=True)
+    if ex is not None:
+        chk.ob(rule, "general periodic arm: %s" % ex, False, ex.where, 'periodic-unrecognised')
+        return
+    if not chk.ob(rule, "general Periodic: two tridiagonal solves with the same condensed matrix (found %d)" % len(m.thomas_calls), len(m.thomas_calls) == 2, where, 'periodic-two-solves'):
+        return
+    s1, s2 = System(m.thomas_calls[0]), System(m.thomas_calls[1])
+    same = True
+    for nm in ('low', 'mid', 'up'):
+        a, b = s1.arr(nm), s2.arr(nm)
+        same &= (a.d['lo'] == b.d['lo'] and a.d['hi'] == b.d['hi'] and
+                 {k: str(v[1]) for k, v in a.d['t'].store.items()} == {k: str(v[1]) for k, v in b.d['t'].store.items()} and
+                 [str(g['value']) for g in a.d['t'].generic] == [str(g['value']) for g in b.d['t'].generic])
+    chk.ob(rule, "general Periodic: both solves use identical sub/main/super-diagonals", same, where, 'periodic-same-matrix')
+    chk.ob(rule, "general Periodic: the condensed system has n-2 unknowns (matrix %s, rhs %s / %s)" % (s1.length('mid'), s1.length('rhs'), s2.length('rhs')),
+           all(s.length(a) == N - 2 for s in (s1, s2) for a in ('mid', 'rhs')), where, 'periodic-size')
+    eq = {str(Y(N - 1)): Y(0)}
+    ref, _, _ = run_solve(lib, mixed('Natural', 'Natural'), None)
+    sg = System(ref.thomas_calls[0])
+    # row 0: cyclic stencil at node 0, the k[n-2] column moved to the second right-hand side
+    dxl = X(N - 1) - X(N - 2)
+    L, M, U, R = cyclic_stencil(sg, (X(0) - dxl, X(0), X(1)), (Y(N - 2), Y(0), Y(1)))
+    got = (-s2.at('rhs', 0), s1.at('mid', 0), s1.at('up', 0), s1.at('rhs', 0).subs(eq))
+    chk.ob(rule, "general Periodic: row 0 is the C2 stencil at node 0 with the left neighbour taken one period back; its k[n-2] coefficient is "
+                 "(minus) the first entry of the second right-hand side", proportional(got, (L, M, U, R)), where, 'periodic-row0', [str(z) for z in got])
+    # last row of the condensed matrix: generic row n-3 whose super-diagonal entry (coefficient of k[n-2]) moved to rhs2
+    Lg, Mg, Ug, Rg = cyclic_stencil(sg, (X(N - 4), X(N - 3), X(N - 2)), (Y(N - 4), Y(N - 3), Y(N - 2)))
+    got = (s1.at('low', N - 3), s1.at('mid', N - 3), -s2.at('rhs', N - 3), s1.at('rhs', N - 3))
+    chk.ob(rule, "general Periodic: row n-3 is the interior stencil; its k[n-2] coefficient is (minus) the last entry of the second right-hand side",
+           proportional(got, (Lg, Mg, Ug, Rg)), where, 'periodic-row-last', [str(z) for z in got])
+    # interior entries of rhs2 are zero
+    t2 = s2.arr('rhs').d['t']
+    keys = set(t2.store)
+    chk.ob(rule, "general Periodic: the second right-hand side is zero except for its first and last entry (entries set: %s)" % sorted(keys),
+           keys == {idx_name(Rat.const(0)), idx_name(N - 3)} and not t2.generic, where, 'periodic-rhs2')
+    # closing row through the k[n-2] formula
+    kt = m.k.d['t']
+    kap = kt.store.get(idx_name(N - 2))
+    klast = kt.store.get(idx_name(N - 1))
+    if not chk.ob(rule, "general Periodic: k[n-2] and k[n-1] are assigned", kap is not None and klast is not None, where, 'periodic-closing-assigned'):
+        return
+    kap = kap[1].subs(eq)
+    U0, Un, V0, Vn = 'K1[0]', 'K1[%s]' % (N - 3), 'K2[0]', 'K2[%s]' % (N - 3)
+    atoms = kap.atoms()
+    chk.ob(rule, "general Periodic: k[n-2] is computed from the first and last entries of the two partial solutions (%s)" %
+           sorted(a for a in atoms if a.startswith('K')), {a for a in atoms if a.startswith('K')} == {U0, Un, V0, Vn}, where, 'periodic-kappa-atoms')
+    num, den = kap.n, kap.d
+    c_n3 = -num.coeff_of(Un, 1)      # coefficient a of k[n-3]
+    c_0 = -num.coeff_of(U0, 1)       # coefficient c of k[n-1] = k[0]
+    rconst = num.coeff_of(Un, 0).coeff_of(U0, 0)
+    a2 = den.coeff_of(Vn, 1)
+    c2 = den.coeff_of(V0, 1)
+    bconst = den.coeff_of(Vn, 0).coeff_of(V0, 0)
+    lin = (num.degree_in(Un) <= 1 and num.degree_in(U0) <= 1 and den.degree_in(Vn) <= 1 and den.degree_in(V0) <= 1 and
+           not (num.atoms() & {V0, Vn}) and not (den.atoms() & {U0, Un}))
+    chk.ob(rule, "general Periodic: k[n-2] = (r - a u[n-3] - c u[0]) / (a v[n-3] + b + c v[0]) - the closing row solved for k[n-2] with k = u + k[n-2] v",
+           lin and Rat(c_n3) == Rat(a2) and Rat(c_0) == Rat(c2), where, 'periodic-kappa-form', str(kap)[:400])
+    Lc, Mc, Uc, Rc = cyclic_stencil(sg, (X(N - 3), X(N - 2), X(N - 1)), (Y(N - 3), Y(N - 2), Y(0)))
+    chk.ob(rule, "general Periodic: the closing row (a, b, c, r) is the C2 stencil at node n-2 with k[n-1] = k[0]",
+           proportional((Rat(c_n3), Rat(bconst), Rat(c_0), Rat(rconst)), (Lc, Mc, Uc, Rc)), where, 'periodic-closing-row',
+           [str(z) for z in (c_n3, bconst, c_0, rconst)])
+    chk.ob(rule, "general Periodic: k[n-1] = k[0]", klast[1] == kt_row(m, Rat.const(0)), where, 'periodic-wrap', str(klast[1]))
+    g = [g for g in kt.generic if not isinstance(g['value'], Rat)]
+    ok = len(g) == 1 and g[0]['lo'] == Rat.const(0) and g[0]['hi'] == N - 3
+    if ok:
+        i = A('i')
+        v = g[0]['value'].d['f'](i)
+        ok = v == A('K1[i]') + kt.store[idx_name(N - 2)][1] * A('K2[i]')
+    chk.ob(rule, "general Periodic: k[i] = u[i] + k[n-2] v[i] for i = 0 .. n-3", ok, where, 'periodic-assembly')
+
+
+def kt_row(m, i):
+    t = m.k.d['t']
+    k = idx_name(i)
+    if k in t.store:
+        return t.store[k][1]
+    for g in reversed(t.generic):
+        if not isinstance(g['value'], Rat):
+            return g['value'].d['f'](i)
+        return reindex(g['value'], {g['var']: i})
+    return None
+
+
+# --------------------------------------------------------------------------- calc_coefficients: dispatch, shape check, a/b formulas
+CS = 'interp1d::strategies::cubic_spline::CubicSpline'
+
+
+def run_calc(lib, bc, **scn):
+    b = lib.body(CALC)
+    scn = dict(scn)
+    scn['n'] = None
+    scn['summarise_solve'] = True
+    m = SModel(scn)
+    it = Interp(lib, m)
+    x, data = cubic_objects()
+    fields = {}
+    if bc == 'Individual':
+        fields = {'0': Obj('data', name='bounds', lead=1, idx=[])}
+        m.bounds = fields['0']
+    s = Enum(CS, 'CubicSpline', {'extrapolate': B(False), 'boundary': Enum(BC, bc, fields)})
+    try:
+        out = deref_all(it.call_def(b['def'], [Ref(ValPlace(s)), Ref(ValPlace(x)), Ref(ValPlace(data))]))
+        return m, out, None, (x, data)
+    except (Unsupported, Diverge) as ex:
+        return m, None, ex, (x, data)
+
+
+def check_dispatch(chk, lib, rule_tab, rule_shape):
+    b = lib.body(CALC)
+    if not chk.require(b is not None, rule_tab, 'anchor-calc', CALC, "the coefficient routine called by CubicSpline::build exists"):
+        return
+    where = b['span']
+    for bc in ('NotAKnot', 'Natural', 'Clamped', 'Periodic'):
+        m, out, ex, (x, data) = run_calc(lib, bc)
+        key = 'dispatch-' + bc
+        if ex is not None:
+            chk.ob(rule_tab, "calc_coefficients(%s) is within the reviewed surface: %s" % (bc, ex), False, ex.where, key + '-unrecognised')
+            continue
+        ok = len(m.solve_calls) == 1 and not m.individual_calls
+        got = None
+        if ok:
+            a = m.solve_calls[0]['args']
+            got = a[3].variant if isinstance(a[3], Enum) else None
+            ok = got == bc and a[1] is x and a[2] is data and isinstance(a[0], Obj) and a[0].kind == 'arr2'
+        chk.ob(rule_tab, "BoundaryCondition::%s solves once, for all lanes together, with InternalBoundary::%s on the builder's own axis and data (got %s)" %
+               (bc, bc, got), ok, where, key)
+    for okb in (True, False):
+        m, out, ex, (x, data) = run_calc(lib, 'Individual', bounds_ok=okb)
+        key = 'individual-bounds_ok=%s' % okb
+        if ex is not None:
+            chk.ob(rule_shape, "calc_coefficients(Individual) is within the reviewed surface: %s" % ex, False, ex.where, key + '-unrecognised')
+            continue
+        if okb:
+            ok = len(m.individual_calls) == 1 and not m.solve_calls
+            if ok:
+                a = m.individual_calls[0]['args']
+                ok = a[1] is x and a[2] is data and a[3] is m.bounds
+            chk.ob(rule_tab, "BoundaryCondition::Individual with a correctly shaped boundary array goes to the per-lane dispatcher with the axis, data and that array", ok, where, key)
+        else:
+            err = None
+            if isinstance(out, Enum) and out.variant == 'Err':
+                er = deref_all(out.fields['0'])
+                err = er.variant if isinstance(er, Enum) else None
+            chk.ob(rule_shape, "BoundaryCondition::Individual with a boundary array whose shape differs from (1, trailing dims) -> Err(ShapeError) before any solve (got %s)" % err,
+                   err == 'ShapeError' and not m.individual_calls and not m.solve_calls, where, key)
+        cmpd = [c for c in m.cmp_events if c[0] == 'ddim']
+        chk.ob(rule_shape, "the boundary array's shape is compared with the data shape whose leading entry is replaced by 1 (%s)" % cmpd[:1],
+               len(cmpd) == 1 and ("'n': 1" in cmpd[0][1] or "'n': 1" in cmpd[0][2]), where, key + '-compared')
+    # strategy errors are passed on unchanged
+    m, out, ex, _ = run_calc(lib, 'Periodic', solve='err')
+    same = ex is None and isinstance(out, Enum) and out.variant == 'Err' and deref_all(out.fields['0']) is m.ret_err
+    chk.ob(rule_shape, "an error of the solver (Periodic end rows) is returned unchanged by calc_coefficients", same, where, 'solver-error-identity')
+
+
+def extract_ab(chk, lib, rule):
+    """(a[j], b[j]) as lane expressions in k[j], k[j+1], y[j], y[j+1], x[j], x[j+1], and their index range"""
+    m, out, ex, _ = run_calc(lib, 'NotAKnot')
+    where = lib.body(CALC)['span']
+    if ex is not None or not (isinstance(out, Enum) and out.variant == 'Ok'):
+        chk.ob(rule, "calc_coefficients is within the reviewed surface: %s" % ex, False, ex.where if ex else where, 'coeff-unrecognised')
+        return None
+    tup = deref_all(out.fields['0'])
+    ok = isinstance(tup, Tup) and len(tup.items) == 2 and all(isinstance(deref_all(z), Obj) and deref_all(z).kind == 'arr2' for z in tup.items)
+    if not chk.ob(rule, "calc_coefficients returns the two coefficient arrays", ok, where, 'coeff-shape'):
+        return None
+    res = []
+    for z in tup.items:
+        t = deref_all(z).d['t']
+        g = [g for g in t.generic if isinstance(g['value'], Rat)]
+        if not chk.ob(rule, "each coefficient array is filled by one loop over the intervals", len(g) == 1 and not t.store, where, 'coeff-loop'):
+            return None
+        res.append((reindex(g[0]['value'], {g[0]['var']: A('j')}), g[0]['lo'], g[0]['hi'], deref_all(z).d['hi']))
+    (a, lo, hi, la), (b, lo2, hi2, lb) = res
+    chk.ob(rule, "the coefficient arrays have n-1 rows and the loop covers the intervals 0 .. n-2 (%s..%s, %s..%s, rows %s/%s)" % (lo, hi, lo2, hi2, la, lb),
+           lo == Rat.const(0) and lo2 == Rat.const(0) and hi == N - 2 and hi2 == N - 2 and la == N - 1 and lb == N - 1, where, 'coeff-range')
+    return a, b
+
+
+def check_hermite(chk, lib, rule_pass, rule_c1, rule_repro):
+    """reader/writer agreement between calc_coefficients (a, b from slopes) and the evaluation kernel."""
+    from ..kernels import run_spline, SPL
+    ab = extract_ab(chk, lib, rule_c1)
+    if ab is None:
+        return
+    a, b = ab
+    o = run_spline(lib, 'No', 'inside')
+    where = lib.body(SPL)['span']
+    if not chk.ob(rule_pass, "evaluation kernel extracted", o.kind == 'ok' and len(o.m.writes) == 1, where, 'eval-kernel'):
+        return
+    P = o.m.writes[0][1]
+    i = A('i_x')
+    q = A('q')
+    xl, xr = X(i), X(i + 1)
+    yl, yr = Y(i), Y(i + 1)
+    al, bl = data_atom('a', [i]), data_atom('b', [i])
+    used = P.atoms()
+    chk.ob(rule_pass, "the piece uses data, a and b of the SAME interval index as the axis values (atoms: %s)" % sorted(used),
+           used <= {'q', str(xl), str(xr), str(yl), str(yr), str(al), str(bl)}, where, 'eval-same-index')
+    chk.ob(rule_pass, "S(x_left) = y_left for every a, b (the spline passes through the data)", P.subs({'q': xl}) == yl, where, 'eval-left')
+    chk.ob(rule_pass, "S(x_right) = y_right for every a, b", P.subs({'q': xr}) == yr, where, 'eval-right')
+    # one cubic per interval: degree in q after clearing the (q-free) denominator
+    den_free = 'q' not in P.d.atoms()
+    chk.ob(rule_pass, "each piece is a polynomial of degree <= 3 in the query", den_free and P.n.degree_in('q') <= 3, where, 'eval-degree')
+    # C1: derivative at both ends equals the slopes the coefficients were built from
+    aj = reindex(a, {'j': i})
+    bj = reindex(b, {'j': i})
+    kl, kr = A('k[%s]' % i), A('k[%s]' % (i + 1))
+    Pk = P.subs({str(al): aj, str(bl): bj})
+    dP = diff(Pk, 'q')
+    chk.ob(rule_c1, "reader/writer agreement: with a, b as computed by calc_coefficients, S'(x_left) = k[i]", dP.subs({'q': xl}) == kl, where, 'c1-left', str(dP.subs({'q': xl}))[:300])
+    chk.ob(rule_c1, "reader/writer agreement: S'(x_right) = k[i+1] (so neighbouring pieces share value and first derivative)", dP.subs({'q': xr}) == kr, where, 'c1-right')
+    # second derivative at the ends in terms of k, y: used by the interior stencil consistency
+    d2 = diff(dP, 'q')
+    # reproduction: y = p(x), k = p'(x)  ->  S == p on the whole line
+    sub = {str(yl): cubic(xl), str(yr): cubic(xr), str(kl): dcubic(xl), str(kr): dcubic(xr)}
+    Pp = Pk.subs(sub)
+    chk.ob(rule_repro, "Hermite consistency: with y = p(x), k = p'(x) for a cubic p, the piece equals p(q) for every q (also outside [x_left, x_right])",
+           Pp == cubic(q), where, 'hermite-reproduces', str(Pp)[:300])
+    chk.sample({"a[j]": str(a), "b[j]": str(b)})
+    return Pk, d2
+
+
+# --------------------------------------------------------------------------- top-level kinds and the per-lane dispatcher
+def check_toplevel_kinds(chk, lib, rule):
+    where = lib.body(SFK)['span']
+    for kind in ('NotAKnot', 'Natural', 'Clamped'):
+        for n in (None, 3):
+            if n == 3 and kind == 'NotAKnot':
+                continue   # the 3-point parabola arm, checked separately
+            nv = 'symbolic (>= 4)' if n is None else '3'
+            nn = N if n is None else Rat.const(3)
+            m, out, ex = run_solve(lib, Enum(IB, kind), n)
+            key = 'toplevel-%s-n%s' % (kind, nv)
+            if ex is not None:
+                chk.ob(rule, "solve_for_k(InternalBoundary::%s), n %s: %s" % (kind, nv, ex), False, ex.where, key + '-unrecognised')
+                continue
+            if not chk.ob(rule, "InternalBoundary::%s, n %s: one solve" % (kind, nv), len(m.thomas_calls) == 1, where, key + '-one-solve'):
+                continue
+            s = System(m.thomas_calls[0])
+            left_row_check(chk, rule, kind, s, where, nv + ' whole-set ' + kind)
+            right_row_check(chk, rule, kind, s, where, nv + ' whole-set ' + kind, nn)
+
+
+FROM_RB = '<interp1d::strategies::cubic_spline::InternalBoundary as std::convert::From>::from'
+SFKI = 'interp1d::strategies::cubic_spline::CubicSpline::solve_for_k_individual'
+
+
+class IndModel(SModel):
+    def __init__(self, scn):
+        scn = dict(scn)
+        scn['n'] = None
+        scn['summarise_solve'] = True
+        super().__init__(scn)
+        self.iter_axes = []
+        self.fold_steps = []
+
+    def compare(self, op, a, b, e):
+        if isinstance(a, Num) and isinstance(b, Num) and 'ndim(' in str(a.r) + str(b.r):
+            sa = str(a.r)
+            c = b.const()
+            if sa.startswith('ndim(') and c == 1 and op in ('gt', 'le'):
+                deep = bool(self.scn['deep'])
+                self.cmp_events.append(('ndim', sa, op, c))
+                return deep if op == 'gt' else (not deep)
+            raise Unsupported("rank test %s %s %s (only `ndim > 1` is tabulated)" % (a, op, b), e)
+        return super().compare(op, a, b, e)
+
+    def call(self, name, cal, args, e, frame):
+        last = name.split('::')[-1]
+        a0 = deref_all(args[0]) if args else None
+        if isinstance(a0, Obj) and a0.kind == 'dyn':
+            if last == 'ndim':
+                return Num(A('ndim(%s)' % a0.d['role']))
+            if last in ('axis_iter_mut', 'axis_iter'):
+                ax = deref_all(args[1])
+                axv = str(deref_all(ax.fields['0']).r) if isinstance(ax, Enum) else repr(ax)
+                self.iter_axes.append((a0.d['role'], axv))
+                return Obj('dyniter', of=a0, axis=axv)
+            if last == 'first' and a0.d['role'] == 'boundary':
+                import copy
+                return SOME(Ref(ValPlace(copy.deepcopy(self.scn['row_boundary']))))
+            if last in ('view', 'view_mut', 'into_dyn'):
+                return a0
+        if name == 'std::convert::Into::into' and isinstance(a0, Enum) and a0.adt == RB:
+            return self.interp.call_norm(FROM_RB, [a0], e)
+        if last == 'fold_while' and isinstance(a0, Obj) and a0.kind == 'zip':
+            parts = a0.d['parts']
+            subs = []
+            for p in parts:
+                if not (isinstance(p, Obj) and p.kind == 'dyniter'):
+                    raise Unsupported("dispatcher zips %r" % (p,), e)
+                subs.append(Obj('dyn', role=p.d['of'].d['role'], depth=p.d['of'].d['depth'] + 1, parent_axis=p.d['axis']))
+            r = deref_all(self.interp.apply(args[2], [args[1]] + subs, e))
+            self.fold_steps.append(r)
+            return r
+        if last == 'into_inner' and isinstance(a0, Enum) and a0.adt == 'ndarray::FoldWhile':
+            return a0.fields['0']
+        return super().call(name, cal, args, e, frame)
+
+
+def check_dispatcher(chk, lib, rule):
+    b = lib.body(SFKI)
+    if not chk.require(b is not None, rule, 'anchor-dispatcher', SFKI, "the per-lane boundary dispatcher exists"):
+        return
+    where = b['span']
+    x = Obj('axis', name='x')
+
+    def objs():
+        return [Obj('dyn', role=r, depth=0) for r in ('k', 'data', 'boundary')]
+    # ---- recursion step
+    for res in ('ok', 'err'):
+        m = IndModel({'deep': True, 'solve': res})
+        it = Interp(lib, m)
+        k, data, bd = objs()
+        try:
+            out = deref_all(it.call_def(b['def'], [k, Ref(ValPlace(x)), data, bd]))
+        except (Unsupported, Diverge) as ex:
+            chk.ob(rule, "the dispatcher (rank > 1) is within the reviewed surface: %s" % ex, False, ex.where, 'dispatch-deep-unrecognised')
+            continue
+        axes = m.iter_axes
+        chk.ob(rule, "rank > 1: k, data and the boundary array are split along the same axis, the last one of k (%s)" % axes,
+               sorted(r for r, _ in axes) == ['boundary', 'data', 'k'] and len({a for _, a in axes}) == 1 and axes[0][1] == str(A('ndim(k)') - 1),
+               where, 'dispatch-same-axis-' + res)
+        rec = m.individual_calls
+        ok = len(rec) == 1
+        if ok:
+            a = rec[0]['args']
+            ok = ([z.d.get('role') for z in (a[0], a[2], a[3])] == ['k', 'data', 'boundary'] and all(z.d['depth'] == 1 for z in (a[0], a[2], a[3])) and a[1] is x)
+        chk.ob(rule, "rank > 1: the recursion receives the co-iterated sub-views of k, data and boundary (in these roles) and the same axis x", ok, where, 'dispatch-recursion-' + res)
+        if res == 'err':
+            same = isinstance(out, Enum) and out.variant == 'Err' and deref_all(out.fields['0']) is m.ret_err
+            step = m.fold_steps[0].variant if m.fold_steps else None
+            chk.ob(rule, "rank > 1: an error of a lane stops the iteration (FoldWhile::%s) and is returned unchanged" % step, same and step == 'Done', where, 'dispatch-error')
+        else:
+            chk.ob(rule, "rank > 1: success continues with the next lane and finally returns Ok", isinstance(out, Enum) and out.variant == 'Ok' and
+                   m.fold_steps and m.fold_steps[0].variant == 'Continue', where, 'dispatch-continue')
+    # ---- leaf: the lane's own boundary element, converted variant by variant
+    vl, vr = Num(A('bl')), Num(A('br'))
+    cases = {'NotAKnot': Enum(RB, 'NotAKnot'), 'Natural': Enum(RB, 'Natural'), 'Clamped': Enum(RB, 'Clamped'),
+             'Mixed': Enum(RB, 'Mixed', {'left': Enum(SB, 'FirstDeriv', {'0': vl}), 'right': Enum(SB, 'SecondDeriv', {'0': vr})})}
+    for nm, rb in cases.items():
+        m = IndModel({'deep': False, 'row_boundary': rb})
+        it = Interp(lib, m)
+        k, data, bd = objs()
+        try:
+            it.call_def(b['def'], [k, Ref(ValPlace(x)), data, bd])
+        except (Unsupported, Diverge) as ex:
+            chk.ob(rule, "the dispatcher (rank <= 1) is within the reviewed surface: %s" % ex, False, ex.where, 'dispatch-leaf-unrecognised')
+            continue
+        rec = m.solve_calls
+        ok = len(rec) == 1 and not m.individual_calls
+        if ok:
+            a = rec[0]['args']
+            got = a[3]
+            ok = (a[0] is k and a[1] is x and a[2] is data and isinstance(got, Enum) and got.adt == IB and got.variant == nm)
+            if ok and nm == 'Mixed':
+                l, r = deref_all(got.fields['left']), deref_all(got.fields['right'])
+                ok = (l.variant == 'FirstDeriv' and deref_all(l.fields['0']).r == vl.r and r.variant == 'SecondDeriv' and deref_all(r.fields['0']).r == vr.r)
+        chk.ob(rule, "rank <= 1: the lane is solved once with its own data, its own slopes and its own boundary element RowBoundary::%s, converted to the same kind (values kept)" % nm,
+               ok, where, 'dispatch-leaf-' + nm)
 
 
 def build_checks(chk, lib, rule):
-    return
+    """R10.3 (used by C10): boundary array shape check, periodic end rows, strategy errors unchanged"""
+    check_dispatch(chk, lib, rule, rule)
+    check_periodic_ends_only(chk, lib, rule)
+
+
+def check_periodic_ends_only(chk, lib, rule):
+    where = lib.body(SFK)['span']
+    per = Enum(IB, 'Periodic')
+    for n in (3, None):
+        nv = '3' if n == 3 else 'symbolic (>= 4)'
+        nn = Rat.const(3) if n == 3 else N
+        for ndim1 in (True, False):
+            m, out, ex = run_solve(lib, per, n, ends_equal=False, ndim1=ndim1)
+            key = 'periodic-ends-n%s-ndim1=%s' % (nv, ndim1)
+            if ex is not None:
+                chk.ob(rule, "periodic arm (n %s): %s" % (nv, ex), False, ex.where, key + '-unrecognised')
+                continue
+            err = None
+            if isinstance(out, Enum) and out.variant == 'Err':
+                er = deref_all(out.fields['0'])
+                err = er.variant if isinstance(er, Enum) else None
+            cmpd = [c for c in m.cmp_events if c[0] == 'lanes']
+            chk.ob(rule, "Periodic, n %s: unequal first/last data rows -> Err(ValueError) before any solve (got %s)" % (nv, err),
+                   err == 'ValueError' and not m.thomas_calls and not m.k.d['t'].writes, where, key)
+            chk.ob(rule, "Periodic, n %s: the rows compared are the first and the last data row" % nv,
+                   len(cmpd) >= 1 and {cmpd[0][1], cmpd[0][2]} == {str(Y(0)), str(Y(nn - 1))}, where, key + '-which-rows')
